@@ -152,7 +152,7 @@ def custom_forms(chk, P):
     M.install_cexprtk(I)
     func = I.instantiate(cx, [_form_tuple(I, P, "f", ["r", "A", "B"], "A*r + B")], {}, None)
     table = M.symbol_table_of(func)
-    site = cx.lookup("__call__").site()
+    site = cx.site_of("__call__")
     for trial, vals in enumerate((("r1", "a1", "b1"), ("r2", "a2", "b2"))):
         v = I.call(func, [Num(ep.sym(x)) for x in vals], {})
         expr = M.expression_of(func)
@@ -207,7 +207,7 @@ def signatures(chk, P):
     from .c14 import parse
     cls = P.cls(CP, "ConfigParser")
     cfg = P.cls("atsim.potentials.config._common", "ConfigurationException")
-    site = cls.lookup("potential_form").site()
+    site = cls.site_of("potential_form")
 
     def read(sig):
         out = parse(P, "[Pair]\nA-B : as.zero\n[Potential-Form]\n%s : r\n" % sig)
@@ -264,7 +264,7 @@ def grammar_names(chk, P):
 
 def tree_walker(chk, P):
     cls = P.cls(CP, "ConfigParser")
-    site = cls.lookup("pair").site()
+    site = cls.site_of("pair")
 
     def field(t, name):
         return t.values[t.cls.fields.index(name)]
@@ -328,7 +328,7 @@ def builder(chk, P):
     mods = DictV()
     mods.items[Const("sum").key()] = (Const("sum"), PyObjV(Factory("sum")))
     b = I.instantiate(bcls, [forms, mods], {}, None)
-    site = bcls.lookup("create_potential_function").site()
+    site = bcls.site_of("create_potential_function")
     third = I.call(pfi, [Const("as.c"), ListV([], "list"), I.call(mrd, [Const(">"), Num(ep.const(4))], {}), NONE], {})
     second = I.call(pfi, [Const("as.b"), ListV([Num(ep.const(7))], "list"), I.call(mrd, [Const(">="), Num(ep.const(2))], {}), third], {})
     first = I.call(pfi, [Const("as.a"), ListV([Num(ep.const(1)), Num(ep.const(2))], "list"), I.call(mrd, [Const(">"), Num(ep.const(0))], {}), second], {})
@@ -367,7 +367,7 @@ def builder(chk, P):
     potobj = pots.items[0] if isinstance(pots, ListV) and len(pots.items) == 1 else pots
     ok = isinstance(potobj, InstV) and I.getattr(potobj, "speciesA").v == "O" and I.getattr(potobj, "speciesB").v == "U" \
         and I.getattr(potobj, "potentialFunction").key() == Opaque(("built", W.param("defn").key())).key()
-    chk.ob("C09.O7", "a [Pair] row 'O-U : DEFN' becomes Potential('O', 'U', function of DEFN)", ok, site=pb.lookup("potentials").site(),
+    chk.ob("C09.O7", "a [Pair] row 'O-U : DEFN' becomes Potential('O', 'U', function of DEFN)", ok, site=pb.site_of("potentials"),
            found=potobj.attrs if isinstance(potobj, InstV) else potobj, expect="Potential(O, U, built(defn))", key="C09.O7|pair-row")
 
 
@@ -415,7 +415,7 @@ def delimiters(chk, P):
     b = parse(P, "[Pair]\nA-B = as.zero\n[Potential-Form]\nf(r) : r\n")
     ok = a[0] == "ok" and b[0] == "ok" and a[1] == b[1]
     chk.ob("C09.O9", "'=' and ':' are interchangeable delimiters (parser options untouched; same parsed state)", ok,
-           site=P.cls(CP, "_RawConfigParser").lookup("__init__").site(), found=(a[1], b[1]) if ok is False else None, expect="same state",
+           site=P.cls(CP, "_RawConfigParser").site_of("__init__"), found=(a[1], b[1]) if ok is False else None, expect="same state",
            key="C09.O9|delimiters")
 
 
